@@ -221,6 +221,7 @@ pub fn profile() -> Profile {
     p.max_txs = 8;
     p.hostile = true;
     p.p_teleport = 1;
+    p.seed_funds = true;
     p
 }
 
